@@ -158,12 +158,14 @@ type Op struct {
 	Enforce bool   `json:"enforce"`
 	Size    int    `json:"size"`
 	SizeCl  string `json:"size_class"`
-	Shape   string `json:"shape,omitempty"`         // "" token + padding of Size bytes | nil | empty | b15 | b16 | b17 | b32 (body of exactly n plaintext bytes)
-	Recv    string `json:"receiver,omitempty"`      // "" typed (matrix) | typed | nil : the result argument passed to Call
-	Via     string `json:"via,omitempty"`           // sync (Session.Call in a goroutine) | async (AsyncCall)
-	HErr    bool   `json:"handler_error,omitempty"` // the call handler returns an error status instead of a result
-	Phase   string `json:"phase,omitempty"`         // "" matrix order | trigger | probe (sequence pairs) | concurrent
-	After   string `json:"after,omitempty"`         // for a probe: the operation that preceded it on the session
+	Shape   string `json:"shape,omitempty"`          // "" token + padding of Size bytes | nil | empty | b15 | b16 | b17 | b32 (body of exactly n plaintext bytes)
+	Recv    string `json:"receiver,omitempty"`       // "" typed (matrix) | typed | nil : the result argument passed to Call
+	Via     string `json:"via,omitempty"`            // sync (Session.Call in a goroutine) | async (AsyncCall)
+	HStat   string `json:"handler_status,omitempty"` // "" the handler returns (result, nil) | ok-new (result, NewStatus(CodeOK,"",nil)) | ok-msg (result, NewStatus(0,"fine",""))
+	Form    string `json:"handler_form,omitempty"`   // "" function handler with a CallCtx | ctrl (struct controller method) | ctxfunc (function with a struct-pointer context) | unknown (SetUnknownCall)
+	HErr    bool   `json:"handler_error,omitempty"`  // the call handler returns an error status instead of a result
+	Phase   string `json:"phase,omitempty"`          // "" matrix order | trigger | probe (sequence pairs) | concurrent
+	After   string `json:"after,omitempty"`          // for a probe: the operation that preceded it on the session
 }
 
 type opKind struct {
@@ -284,6 +286,25 @@ func opsFor(c Cell, r *core.Rand) []Op {
 	// calls whose handler answers with an error status
 	for _, m := range markers {
 		ops = append(ops, Op{N: len(ops), Kind: "call", Marker: m, Size: 40, SizeCl: "small", HErr: true})
+	}
+	// status shapes of the handler's return x handler registration forms (the matrix above is "function handler, nil status")
+	for _, form := range []string{"", "ctrl", "ctxfunc", "unknown"} {
+		for _, hs := range []string{"", "ok-new", "ok-msg", "err"} {
+			if form == "" && (hs == "" || hs == "err") {
+				continue
+			}
+			for _, m := range markers {
+				for _, enf := range []bool{false, true} {
+					op := Op{N: len(ops), Kind: "call", Marker: m, Enforce: enf, Size: 40, SizeCl: "small", Form: form}
+					if hs == "err" {
+						op.HErr = true
+					} else {
+						op.HStat = hs
+					}
+					ops = append(ops, op)
+				}
+			}
+		}
 	}
 	return ops
 }
@@ -663,6 +684,7 @@ type opRec struct {
 	pushSt   string      // what Push() returned
 	sawSec   string      // value of X-Secure as seen by the handler
 	returned bool        // the call handler reached its return statement
+	kind     string      // body kind of the cell (the unknown-call handler binds by it)
 	wantArg  interface{} // what the handler must receive (differs from arg only for a nil body)
 	wantRes  interface{} // what the caller must receive
 	gate     *concGate
@@ -752,7 +774,27 @@ func reply(ctx erpc.CallCtx, rec *opRec) *erpc.Status {
 	if rec.op.HErr {
 		return erpc.NewStatus(handlerErrCode, "c17 handler refuses", "requested by the check")
 	}
+	switch rec.op.HStat {
+	case "ok-new":
+		return erpc.NewStatus(erpc.CodeOK, "", nil)
+	case "ok-msg":
+		return erpc.NewStatus(0, "fine", "")
+	}
 	return nil
+}
+
+// serve is the body of every call handler form: record the argument, then return the prepared result together
+// with the status shape the operation asks for (nil, a non-nil status with code OK, or an error status).
+func serve(ctx erpc.CallCtx, arg interface{}) (interface{}, *erpc.Status) {
+	rec := onHandle(ctx, arg)
+	if rec == nil {
+		return nil, errNoRec
+	}
+	st := reply(ctx, rec)
+	if !st.OK() {
+		return nil, st
+	}
+	return rec.res, st
 }
 
 const handlerErrCode int32 = 777
@@ -760,47 +802,76 @@ const handlerErrCode int32 = 777
 // Call handlers (function handlers; the route names are those returned by RouteCallFunc).
 
 func EchoStruct(ctx erpc.CallCtx, arg *JArg) (*JArg, *erpc.Status) {
-	rec := onHandle(ctx, arg)
-	if rec == nil {
-		return nil, errNoRec
-	}
-	if st := reply(ctx, rec); st != nil {
+	r, st := serve(ctx, arg)
+	if r == nil {
 		return nil, st
 	}
-	return rec.res.(*JArg), nil
+	return r.(*JArg), st
 }
 
 func EchoString(ctx erpc.CallCtx, arg *string) (*string, *erpc.Status) {
-	rec := onHandle(ctx, arg)
-	if rec == nil {
-		return nil, errNoRec
-	}
-	if st := reply(ctx, rec); st != nil {
+	r, st := serve(ctx, arg)
+	if r == nil {
 		return nil, st
 	}
-	return rec.res.(*string), nil
+	return r.(*string), st
 }
 
 func EchoBytes(ctx erpc.CallCtx, arg *[]byte) ([]byte, *erpc.Status) {
-	rec := onHandle(ctx, arg)
-	if rec == nil {
-		return nil, errNoRec
-	}
-	if st := reply(ctx, rec); st != nil {
+	r, st := serve(ctx, arg)
+	if r == nil {
 		return nil, st
 	}
-	return rec.res.([]byte), nil
+	return r.([]byte), st
 }
 
 func EchoPb(ctx erpc.CallCtx, arg *pb.Payload) (*pb.Payload, *erpc.Status) {
-	rec := onHandle(ctx, arg)
+	r, st := serve(ctx, arg)
+	if r == nil {
+		return nil, st
+	}
+	return r.(*pb.Payload), st
+}
+
+// C17Ctl is a struct controller (RouteCall): its methods are call handlers.
+type C17Ctl struct{ erpc.CallCtx }
+
+func (c *C17Ctl) Struct(arg *JArg) (*JArg, *erpc.Status)         { return EchoStruct(c.CallCtx, arg) }
+func (c *C17Ctl) String(arg *string) (*string, *erpc.Status)     { return EchoString(c.CallCtx, arg) }
+func (c *C17Ctl) Bytes(arg *[]byte) ([]byte, *erpc.Status)       { return EchoBytes(c.CallCtx, arg) }
+func (c *C17Ctl) Pb(arg *pb.Payload) (*pb.Payload, *erpc.Status) { return EchoPb(c.CallCtx, arg) }
+
+// C17Ctx is the struct-pointer context of the second function handler form.
+type C17Ctx struct{ erpc.CallCtx }
+
+func XEchoStruct(c *C17Ctx, arg *JArg) (*JArg, *erpc.Status)         { return EchoStruct(c.CallCtx, arg) }
+func XEchoString(c *C17Ctx, arg *string) (*string, *erpc.Status)     { return EchoString(c.CallCtx, arg) }
+func XEchoBytes(c *C17Ctx, arg *[]byte) ([]byte, *erpc.Status)       { return EchoBytes(c.CallCtx, arg) }
+func XEchoPb(c *C17Ctx, arg *pb.Payload) (*pb.Payload, *erpc.Status) { return EchoPb(c.CallCtx, arg) }
+
+// unknownCall is the handler given to SetUnknownCall: it binds the raw body by the cell's body kind.
+func unknownCall(ctx erpc.UnknownCallCtx) (interface{}, *erpc.Status) {
+	rec := lookup(ctx.PeekMeta("Id"))
 	if rec == nil {
 		return nil, errNoRec
 	}
-	if st := reply(ctx, rec); st != nil {
-		return nil, st
+	cc, ok := ctx.(erpc.CallCtx)
+	if !ok {
+		return nil, erpc.NewStatus(597, "c17 harness: the unknown-call context is not a CallCtx", "")
 	}
-	return rec.res.(*pb.Payload), nil
+	var arg interface{}
+	switch rec.kind {
+	case "jbytes", "pbbytes":
+		b := append([]byte{}, ctx.InputBodyBytes()...)
+		arg = &b
+	default:
+		h := newHolder(rec.kind)
+		if _, err := ctx.Bind(h); err != nil {
+			return nil, erpc.NewStatus(596, "c17 harness: binding the body in the unknown-call handler failed", err.Error())
+		}
+		arg = h
+	}
+	return serve(cc, arg)
 }
 
 // Push handlers.
@@ -811,11 +882,39 @@ func TakeBytes(ctx erpc.PushCtx, arg *[]byte) *erpc.Status  { onHandle(ctx, arg)
 func TakePb(ctx erpc.PushCtx, arg *pb.Payload) *erpc.Status { onHandle(ctx, arg); return nil }
 
 type routes struct {
-	call, push map[string]string // body kind -> service method
+	call, push map[string]string            // body kind -> service method
+	form       map[string]map[string]string // handler form -> body kind -> service method
+}
+
+// callRoute is the service method for an operation (by handler form).
+func (rt routes) callRoute(kind string, op Op) string {
+	if op.Form == "" {
+		return rt.call[kind]
+	}
+	return rt.form[op.Form][kind]
 }
 
 func register(p erpc.Peer, pl ...erpc.Plugin) routes {
-	rt := routes{map[string]string{}, map[string]string{}}
+	rt := routes{map[string]string{}, map[string]string{}, map[string]map[string]string{"ctrl": {}, "ctxfunc": {}, "unknown": {}}}
+	byMethod := map[string]string{"struct": "jstruct", "string": "jstring", "bytes": "jbytes", "pb": "pbmsg"}
+	for _, name := range p.RouteCall(new(C17Ctl), pl...) {
+		if k, ok := byMethod[name[strings.LastIndexByte(name, '/')+1:]]; ok {
+			rt.form["ctrl"][k] = name
+		}
+	}
+	rt.form["ctrl"]["pbbytes"] = rt.form["ctrl"]["jbytes"]
+	rt.form["ctxfunc"]["jstruct"] = p.RouteCallFunc(XEchoStruct, pl...)
+	rt.form["ctxfunc"]["jstring"] = p.RouteCallFunc(XEchoString, pl...)
+	rt.form["ctxfunc"]["jbytes"] = p.RouteCallFunc(XEchoBytes, pl...)
+	rt.form["ctxfunc"]["pbbytes"] = rt.form["ctxfunc"]["jbytes"]
+	rt.form["ctxfunc"]["pbmsg"] = p.RouteCallFunc(XEchoPb, pl...)
+	p.SetUnknownCall(unknownCall, pl...)
+	for _, k := range bodyKinds {
+		rt.form["unknown"][k] = "/c17/nobody/registered/this/" + k
+		if rt.form["ctrl"][k] == "" {
+			core.Fatalf("controller route for body kind %s not found among the names RouteCall returned", k)
+		}
+	}
 	rt.call["jstruct"] = p.RouteCallFunc(EchoStruct, pl...)
 	rt.call["jstring"] = p.RouteCallFunc(EchoString, pl...)
 	rt.call["jbytes"] = p.RouteCallFunc(EchoBytes, pl...)
@@ -1003,6 +1102,12 @@ func (cr *cellRun) tag(op Op) string {
 	if op.HErr {
 		t += "@handler-error"
 	}
+	if op.Form != "" {
+		t += "@" + op.Form
+	}
+	if op.HStat != "" {
+		t += "@status-" + op.HStat
+	}
 	switch op.Recv {
 	case "nil":
 		t += "@nil-result"
@@ -1137,7 +1242,7 @@ func runCell(id string, c Cell, seedv int64) {
 	var pushes []*opRec
 
 	newRec := func(op Op) *opRec {
-		rec := &opRec{id: fmt.Sprintf("%s.%d.%d", id, *batch, op.N), op: op, enforce: op.Enforce,
+		rec := &opRec{id: fmt.Sprintf("%s.%d.%d", id, *batch, op.N), op: op, enforce: op.Enforce, kind: c.Body,
 			outBody: map[string][]byte{}, outCodec: map[string]byte{}, outSecure: map[string]string{}, outErr: map[string]string{}}
 		if op.Shape != "" {
 			rec.arg, rec.wantArg, rec.argTok = makeShape(c.Body, op.Shape, r, false)
@@ -1170,7 +1275,7 @@ func runCell(id string, c Cell, seedv int64) {
 		ch := make(chan erpc.CallCmd, 1)
 		tp.reset()
 		cur.Store(rec)
-		sender.AsyncCall(rt.call[c.Body], rec.arg, newHolder(c.Body), ch, set...)
+		sender.AsyncCall(rt.callRoute(c.Body, rec.op), rec.arg, newHolder(c.Body), ch, set...)
 		select {
 		case cmd := <-ch:
 			rec.reqFrame, rec.repFrame, rec.orderOK = tp.take(senderEnd)
@@ -1397,7 +1502,7 @@ func runRecvCell(id string, c Cell, seedv int64) {
 			cr.unsure("call", op, "connect: "+err.Error(), nil)
 			continue
 		}
-		rec := &opRec{id: fmt.Sprintf("%s.%d.%d", id, *batch, op.N), op: op, enforce: op.Enforce,
+		rec := &opRec{id: fmt.Sprintf("%s.%d.%d", id, *batch, op.N), op: op, enforce: op.Enforce, kind: c.Body,
 			outBody: map[string][]byte{}, outCodec: map[string]byte{}, outSecure: map[string]string{}, outErr: map[string]string{}}
 		rec.argTok, rec.resTok = newToken(r), newToken(r)
 		rec.arg = makeValue(c.Body, rec.argTok, op.Size, r)
@@ -1648,6 +1753,9 @@ func (cr *cellRun) emit(id, sig string) {
 func (cr *cellRun) nontrivial(role string, op Op) {
 	if cr.observeOnly {
 		return
+	}
+	if op.Form != "" || op.HStat != "" {
+		core.Distinct("status_shapes", fmt.Sprintf("%s/form=%s/status=%s/err=%v/%s/enf=%v/%s/%s/%s", role, op.Form, op.HStat, op.HErr, op.Marker, op.Enforce, cr.c.Proto, cr.c.Body, cr.c.Keys))
 	}
 	if op.Recv != "" {
 		core.Distinct("receiver_shapes", fmt.Sprintf("%s/%s/%s/%s/enf=%v/%s/%s/%s", op.Recv, op.Via, role, op.Marker, op.Enforce, cr.c.Proto, cr.c.Body, cr.c.Keys))
